@@ -105,6 +105,7 @@ def applyInit (f : Fields) (s : State) : State :=
     time := fint f "t"
     mintMax := 200000000000000000, mintMin := 70000000000000000, mintRate := 130000000000000000
     minterInfl := 130000000000000000
+    modified := { maxGB := true, minGB := true, maxHr := true, minHr := true }
     planCount := some 0, sessCount := some 0
     params := {
       provDeposit := parseCoin (fget f "provDeposit"), provShare := fint f "provShare"
@@ -308,7 +309,7 @@ structure ImplMon where
   hasDelta : Bool := false
   cur : List String := []
   time : Time := 0
-  modified : Modified := {}
+  modified : Modified := { maxGB := true, minGB := true, maxHr := true, minHr := true }
   halted : Bool := false
   evals : Nat := 0
 
